@@ -4,7 +4,7 @@ re-enters the construct and (where legal) throws again (C11)."""
 import itertools
 
 WRAPPERS = ["loop", "while", "for", "block", "if", "match", "try", "catch", "call"]
-EXITS = ["break", "continue", "return", "throw", "fatal"]
+EXITS = ["break", "continue", "return", "throw", "fatal", "retthrow"]
 
 
 def legal(ws, x):
@@ -30,7 +30,15 @@ class Builder:
         self.n += 1
         return f"{p}{self.n}"
 
-    def exit_stmt(self, x, tag):
+    def exit_stmt(self, x, tag, in_fn=False):
+        if x == "return" and in_fn:
+            return [f'println("exit {tag}");', "return 7;"]
+        if x == "retthrow":
+            # the operand of `return` throws: it is still evaluated inside the enclosing try blocks
+            return [f'println("exit {tag}");', "return boom_i();" if in_fn else "return boom_n();"]
+        return self.exit_stmt0(x, tag)
+
+    def exit_stmt0(self, x, tag):
         if x == "break":
             return [f'println("exit {tag}");', "break;"]
         if x == "continue":
@@ -41,14 +49,14 @@ class Builder:
             return [f'println("exit {tag}");', f'throw("boom {tag}");']
         return [f'println("exit {tag}");', "println(1 / zero);"]
 
-    def wrap(self, ws, x, depth=0):
+    def wrap(self, ws, x, depth=0, in_fn=False):
         """statements for wrappers ws around exit x; exits only on the first round of loops."""
         if not ws:
-            return self.exit_stmt(x, "x")
+            return self.exit_stmt(x, "x", in_fn)
         w, rest = ws[0], ws[1:]
         v = self.fresh("v")
         c = self.fresh("c")
-        inner = self.wrap(rest, x, depth + 1)
+        inner = self.wrap(rest, x, depth + 1, in_fn or w == "call")
         first = self.fresh("first")
         guard = [f"if {first} {{", f"    {first} = false;"] + ["    " + l for l in inner] + ["};"]
         after_inner = [f'println("after-inner {w}{depth}", {v});']
@@ -74,15 +82,15 @@ class Builder:
             return pre + ["try {", f'    throw("enter{depth}");', f"}} catch {c} {{"] + ind(body) + ["};", f'println("after catch{depth}");']
         if w == "call":
             f = self.fresh("f")
-            self.fns.append([f"fn {f}() {{", "    let zero = 0;"] + ind(pre + body) + ["}"])
-            return [f"{f}();", f"{f}();", f'println("after call{depth}");']
+            self.fns.append([f"fn {f}() -> int {{", "    let zero = 0;"] + ind(pre + body) + ["    0", "}"])
+            return [f"println({f}());", f"println({f}());", f'println("after call{depth}");']
         raise ValueError(w)
 
 
 def program(ws, x):
     b = Builder()
     main = b.wrap(list(ws), x)
-    lines = []
+    lines = ['fn boom_i() -> int { throw("boom i"); }', 'fn boom_n() { throw("boom n"); }']
     for f in b.fns:
         lines += f
     lines += ["fn main() {", "    let zero = 0;"] + ["    " + l for l in main] + ['    println("end of main");', "}"]
